@@ -1,7 +1,7 @@
 //! Instrumented ref-counted pointer used as the pointee handle in concurrent scenarios.
 use arc_swap::RefCnt;
 use core::cell::UnsafeCell;
-use core::sync::atomic::{fence, AtomicUsize, Ordering::*};
+use core::sync::atomic::{fence, Ordering::*};
 
 use crate::rt::*;
 
@@ -9,18 +9,18 @@ pub const POOL: usize = 4;
 
 #[repr(C)]
 pub struct Obj {
-    pub count: AtomicUsize,
-    pub alive: AtomicUsize,
-    pub destroyed: AtomicUsize,
+    pub count: HAtomic,
+    pub alive: HAtomic,
+    pub destroyed: HAtomic,
     pub payload: UnsafeCell<u64>,
 }
 unsafe impl Sync for Obj {}
 
 #[allow(clippy::declare_interior_mutable_const)]
 const OBJ0: Obj = Obj {
-    count: AtomicUsize::new(0),
-    alive: AtomicUsize::new(0),
-    destroyed: AtomicUsize::new(0),
+    count: HAtomic::new(0),
+    alive: HAtomic::new(0),
+    destroyed: HAtomic::new(0),
     payload: UnsafeCell::new(0),
 };
 pub static OBJS: [Obj; POOL] = [OBJ0; POOL];
